@@ -306,7 +306,7 @@ func (w *World) execBlock(b *BlockSpec) bool {
 	if dt < 1 {
 		dt = 1
 	}
-	w.Now = w.Now.Add(time.Duration(dt) * time.Millisecond)
+	w.Now = addMillis(w.Now, dt)
 	w.St.SimSeconds += dt / 1000
 	var prevHash []byte
 	if len(w.Log) > 0 {
@@ -726,4 +726,14 @@ func sortedKeys[V any](m map[string]V) []string {
 	}
 	sort.Strings(ks)
 	return ks
+}
+
+// addMillis adds a (possibly multi-century) number of milliseconds without overflowing Duration.
+func addMillis(t time.Time, ms int64) time.Time {
+	const chunk = int64(100 * 365 * 86400 * 1000) // 100 years
+	for ms > chunk {
+		t = t.Add(time.Duration(chunk) * time.Millisecond)
+		ms -= chunk
+	}
+	return t.Add(time.Duration(ms) * time.Millisecond)
 }
